@@ -23,19 +23,22 @@ from ..oracle import c12_brute as ob
 
 RULES["C12"] = (
     "Pool mesh (tetra, box, octahedron, icosphere, non-convex prism, torus, uv-sphere, one or two disjoint bodies, optional "
-    "vertex jitter, optional removed faces for ray/nearest queries) under a similarity placement: scale 10^U(-2,3), rotation "
-    "identity / exact quarter turn / random, offset 0 / ~10 / ~1e3 mesh scales. Rays by construction: target inside a face "
-    "(barycentrics >= 0.05) or anywhere in the inflated box, origin >= 1e-3*diag from the surface inside the bounds / on a "
-    "shell outside / 20..1000 diag away, direction target-origin (raw or unitized), exact +-axis directions through a face "
-    "point, rays pointing away. The oracle (own Moller-Trumbore over all triangles, float64) keeps a ray only in general "
-    "position: every triangle is either crossed with all barycentrics >= 1e-3 and |n.d| >= 1e-2, or missed with a barycentric "
-    "<= -1e-3 (exactly parallel triangles: ray >= 1e-3 altitude from their edges), <= 20 hits; embree (float32) is only asked "
-    "about rays whose clearance from every edge exceeds 32*2^-24*(|origin-corner|+diag). Checked per engine: set of "
-    "(ray,triangle) hits, locations on the ray ahead of the origin and on the reported triangle, first hit = argmin t, any = "
-    "non-empty, engines agree. contains_points vs generalized winding number for points >= 1e-3*diag from the surface of "
-    "watertight meshes. nearest.on_surface / vertex / signed_distance vs the minimum over all triangles (own plane-projection + "
-    "edge-segment distance) for points over faces, edges, vertices (offset along +-normals by 1e-3..1 diag), far and interior "
-    "points. Non-trivial: a ray batch with >= 1 hit; a point batch with >= 1 kept point. Discards are counted in the histogram."
+    "vertex jitter, optional removed faces for ray/nearest queries) under a similarity placement: scale 10^U(-2,3) with extra "
+    "weight on both ends, rotation identity / exact quarter turn / random, offset 0 / ~10 / ~1e3 mesh scales. Rays by "
+    "construction: target inside a face (barycentrics >= 0.05) or anywhere in the inflated box, origin >= 1e-3*diag from the "
+    "surface inside the bounds / on a shell outside / 20..1000 diag away, direction target-origin (raw or unitized), exact "
+    "+-axis directions through a face point, rays pointing away. The oracle (own Moller-Trumbore over all triangles, float64) "
+    "keeps a ray only in general position: every triangle is either crossed with all barycentrics >= 1e-3 and |n.d| >= 1e-2, "
+    "or missed with a barycentric <= -1e-3 (exactly parallel triangles: ray >= 1e-3 altitude from their edges), <= 20 hits; "
+    "embree (float32) is only asked about rays whose clearance from every edge exceeds 32*2^-24*(|origin-corner|+diag), and "
+    "its all-hits loop only about rays whose consecutive hits are >= 1e-3*diag apart. Checked per engine: set of (ray,triangle) "
+    "hits, locations on the ray ahead of the origin and on the reported triangle, first hit = argmin t, any = non-empty, "
+    "single-hit variants, engines agree. contains_points (both engines) vs generalized winding number for points >= 1e-3*diag "
+    "from the surface of watertight meshes. nearest.on_surface / vertex / signed_distance vs the minimum over all triangles "
+    "(own plane-projection + edge-segment distance) for points over faces, over a face a sliver (1e-7..1e-2 barycentric) "
+    "inside an edge, over edges, over vertices, exactly along an axis from a vertex (offsets 1e-3..1 diag along +-normals), "
+    "in the box, outside, far. Non-trivial: a ray batch with >= 1 hit; a point batch with >= 1 kept point. Discard rates are in "
+    "the histogram: ray_discard:* / ray_generated, cpoint_discard:* / cpoint_generated, ppoint_discard:* (observed: ~5% of rays)."
 )
 ASSUMPTIONS["C12"] = [
     "float64 Moller-Trumbore / point-segment / solid-angle arithmetic of the oracle is trusted at the stated margins (1e-3 barycentric, 1e-2 incidence, 1e-3*diag distance)",
@@ -676,7 +679,9 @@ def b_prox(case, ctx):
                 ctx.note(cls="signed:" + ("inside" if ins else "outside") + ":" + {"f": "face", "e": "edge", "v": "vertex"}[feat])
                 if (sd[i] > 0) != ins:
                     # the sign comes from the face normal when the projection falls on the closest triangle, from mesh.ray.contains_points otherwise
-                    route = "normal" if feat == "f" else "contains_points"
+                    # (decided for the triangle the library itself reports as closest: tol.merge window on the barycentrics)
+                    bl = ob.projection_bary(g.A, g.B, g.C, int(tid[i]), P[i])
+                    route = "normal" if ((bl >= -1e-8) & (bl <= 1 + 1e-8)).all() else "contains_points"
                     if route == "contains_points" and HAVE_EMBREE:
                         inf2 = classify_rays(g, np.array([P[i], P[i]]), np.array([DEFAULT_DIRECTION, -DEFAULT_DIRECTION]))
                         route += embree_contains_cause(g, inf2[0]["hits"], inf2[1]["hits"], inf2[0]["cos"], inf2[1]["cos"])[0]
@@ -737,22 +742,22 @@ def prox_case(draw):
 
 @subcheck("C12", "ray_native", shards={"quick": 4, "thorough": 16})
 def s_ray_native(ctx):
-    ctx.given("C12.ray", ray_case(engines=("native",)), n={"quick": 2400, "thorough": 40000})
+    ctx.given("C12.ray", ray_case(engines=("native",)), n={"quick": 1800, "thorough": 40000})
 
 
 @subcheck("C12", "ray_embree", shards={"quick": 4, "thorough": 16})
 def s_ray_embree(ctx):
-    ctx.given("C12.ray", ray_case(engines=("embree", "both")), n={"quick": 2400, "thorough": 40000})
+    ctx.given("C12.ray", ray_case(engines=("embree", "both")), n={"quick": 1800, "thorough": 40000})
 
 
 @subcheck("C12", "contains", shards={"quick": 4, "thorough": 12})
 def s_contains(ctx):
-    ctx.given("C12.contains", contains_case(), n={"quick": 1600, "thorough": 25000})
+    ctx.given("C12.contains", contains_case(), n={"quick": 1200, "thorough": 25000})
 
 
 @subcheck("C12", "prox", shards={"quick": 4, "thorough": 16})
 def s_prox(ctx):
-    ctx.given("C12.prox", prox_case(), n={"quick": 1600, "thorough": 25000})
+    ctx.given("C12.prox", prox_case(), n={"quick": 1200, "thorough": 25000})
 
 
 REQUIRED_CLASSES["C12"] = [
